@@ -3,6 +3,7 @@ import hashlib
 import inspect
 import os
 import pathlib
+import shutil
 import re
 
 from vf import core
@@ -372,6 +373,45 @@ def explore(ctx):
     for i in bad[:3]:
         ctx.broke("correspondence", f"verdict: model and implementation differ: {allv[i][:300]}")
     explore_loop(ctx, base)
+    explore_dispatch(ctx, base / "dispatch", 4 if ctx.quick() else 150)
+
+
+def explore_dispatch(ctx, base, n):
+    """the daemon's own dispatch: one real UpdateableNode.update() over suspect copies in every wanted state (kept, removable, released)
+    with intact / damaged / missing files; every suspect copy that is not released must carry the exact verdict afterwards"""
+    from alpenhorn.daemon import update as U
+
+    rng = ctx.rng
+    for k in range(n):
+        shutil.rmtree(base, ignore_errors=True)
+        w = __import__("vf.harness.world", fromlist=["x"])
+        w.fresh_db(host="h1")
+        g = w.mkgroup("g")
+        node = w.mknode(base, "n", g, stype=rng.choice("AF"), host="h1")
+        acq = w.mkacq("acq")
+        (pathlib.Path(node.root) / "acq").mkdir(exist_ok=True)
+        plan = []
+        for i, (wants, dmg) in enumerate([(wt, d) for wt in "YMN" for d in ("none", "flip", "delete")]):
+            content = bytes((j * 13 + i) & 0xFF for j in range(rng.choice([1, 50, 40000])))
+            f = w.mkfile(acq, f"c{i}", content)
+            disk = damaged(rng, content, dmg)
+            if disk is not None:
+                (pathlib.Path(node.root) / "acq" / f"c{i}").write_bytes(disk)
+            w.mkcopy(node, f, "M", wants, size_b=len(content))
+            plan.append((f"c{i}", wants, dmg, "N" if disk is None else ("Y" if disk == content else "X")))
+        queue = w.StepQueue.make()
+        un = U.UpdateableNode(queue, w.StorageNode.get(id=node.id))
+        un.update()
+        exits, aborted = w.drain_with_workers(queue)
+        ctx.count("dispatch", len(plan))
+        ctx.distinct_add(("dispatch", k))
+        for name, wants, dmg, exp in plan:
+            c = w.ArchiveFileCopy.select().join(w.ArchiveFile).where(w.ArchiveFile.name == name).get()
+            want = exp if wants != "N" else "M"
+            if c.has_file != want or aborted:
+                ctx.fail("C03:dispatch", f"suspect copy of {name} (wants_file={wants}, file on disk: {dmg}) after one node update: recorded {c.has_file!r}, expected {want!r}"
+                         + (" (released copies are not verified)" if wants == "N" else ""), {"family": "dispatch", "wants": wants, "damage": dmg, "recorded": c.has_file, "expected": want})
+    shutil.rmtree(base, ignore_errors=True)
 
 
 def search(ctx):
